@@ -26,6 +26,7 @@ from typing import Any
 import numpy as np
 
 from verif import core
+from verif.props import c15_gen as G15
 
 RULE = (
     "seeded point sets: lattice rows in 1-5 dimensions with coordinates 0..6 (modes: uniform, antichain/staircase, "
@@ -281,7 +282,7 @@ def bad(kind: str, msg: str, witness: dict[str, Any], tie: bool = False, **sig: 
 
 
 def ask_model(obj: dict[str, Any]) -> dict[str, Any]:
-    return core.driver_batch("hypervolume", [obj])[0]
+    return core.driver_batch(G15.DRIVER, [obj])[0]
 
 
 # ------------------------------------------------------------------------------------------------
@@ -561,12 +562,13 @@ def report(cx: Ctx, stage: str, case: dict[str, Any], b: Bad, shrunk: set[str]) 
 
 def run_cases(cx: Ctx, stage: str, cases: list[dict[str, Any]], reqs: list[dict[str, Any]], shrunk: set[str], nontriv) -> None:
     chk = cx.chk
-    models = core.driver_batch("hypervolume", reqs) if reqs else [None] * len(cases)
+    models = core.driver_batch(G15.DRIVER, reqs) if reqs else [None] * len(cases)
     for case, m in zip(cases, models):
         chk.case(dict(case, fn=FN[stage]), nontrivial=nontriv(case))
         if m is not None and m.get("k") in ("bad-op", "bad-json"):
             chk.broke("correspondence", {"stage": stage, "case": case, "what": "driver rejected the case: %s" % m})
             continue
+        G15.note(chk, stage, case, m)   # "gen": interpreters of the IR generated from wfg.py vs the hand model (driver `hvgen`)
         b = JUDGES[stage](cx, case, m)
         if b is not None:
             report(cx, stage, case, b, shrunk)
@@ -699,9 +701,10 @@ def stage_hv_continuous(cx: Ctx, n_cases: int) -> None:
         den = max(x.denominator for x in itertools.chain(frr, *fr))
         scales.append(den)
         reqs.append({"op": "hvfin", "pts": [[int(x * den) for x in p] for p in fr], "ref": [int(x * den) for x in frr]})
-    models = core.driver_batch("hypervolume", reqs)
+    models = core.driver_batch(G15.DRIVER, reqs)
     worst = 0.0
     for (pts, ref), den, m in zip(cases, scales, models):
+        G15.note(chk, "hv-continuous", {"pts": [[float(x).hex() for x in p] for p in pts], "ref": [float(x).hex() for x in ref]}, m)
         d = len(ref)
         fr = [[Fraction(float(x)) for x in p] for p in pts]
         frr = [Fraction(float(x)) for x in ref]
@@ -989,8 +992,10 @@ def main(chk: core.Check) -> int:
     chk.rule = RULE
     from verif.props import c15_nsga as _nsga
     _nsga.translate(chk)  # T-nsga2: content keys of the NSGA-II functions mirrored by Model/Nsga2.lean
+    G15.regenerate(chk)   # T-hv: wfg.py as written today -> Generated/HvMethods.lean; text of hssp.py / rank functions -> Generated/HvShapes.lean
     if not getattr(chk, "no_prove", False):
-        chk.prove(["OptunaVerif.Props.C15", "OptunaVerif.Props.C15Nsga"])
+        chk.prove(G15.MODULES)
+        G15.explain_proof_failure(chk)
     quick = chk.tier == "quick"
     shrunk: set[str] = set()
     if not quick and not getattr(chk, "no_prove", False):
